@@ -325,7 +325,7 @@ class Witness:
             ts = templates_of(b, fb, r.org)
             if len(ts) != 1 or ts[0].kinds != ["display", "debug"]:
                 raise WitnessError("%s: expected one template with (indent, {:?} text)" % nm)
-            prints[nm] = ts[0].text(lambda i, o: "    " if i == 0 else json.dumps("sample \\ \" text\n"))
+            prints[nm] = ts[0].text(lambda i, o: "    " if i == 0 else json.dumps("sample {0} }{ \\ \" text\n"))
         self.meta["prints"] = {k: v for k, v in prints.items()}
         # ---- assemble
         src = ["#![allow(warnings)]", "use hyeong::number::big_number::BigNum;", "use hyeong::number::num::Num;", "use std::collections::HashMap;", CONSTS]
